@@ -251,7 +251,7 @@ func TestSchedWriters(t *testing.T) {
 		tasks := rapid.IntRange(2, 4).Draw(t, "tasks")
 		blocks := rapid.IntRange(1, 3).Draw(t, "blocks")
 		init := buildConcInit(blocks, 4)
-		cfg := concGenCfg{Tasks: tasks, MaxTxns: 2, Deletes: true, Inserts: rapid.Bool().Draw(t, "inserts"), Puts: true}
+		cfg := concGenCfg{Tasks: tasks, MaxTxns: 2, Deletes: true, Inserts: rapid.Bool().Draw(t, "inserts"), Puts: true, Aborts: true}
 		if rapid.IntRange(0, 3).Draw(t, "dense-layout") == 0 {
 			// full first block: inserts land right behind rows that tasks delete (allocator under in-flight deletes)
 			init = buildConcInitDense(4)
